@@ -415,11 +415,23 @@ func (d *driver) run(replay string) int {
 			fmt.Fprintf(os.Stderr, "replay: case invalid or not executed\n%s\n", tail(stderr, 2000))
 			return 2
 		}
+		if o != nil && o.Undecided != "" {
+			fmt.Fprintf(os.Stderr, "replay: UNDECIDED: %s\n", o.Undecided)
+			return 2
+		}
 		fmt.Printf("replay: 0/%d repetitions violated\n", runs)
 		return 0
 	}
 
 	known := d.loadKnown()
+	knownHit := map[string]bool{}
+	for _, k := range known {
+		// every listed (unrepaired) finding of this property is reported on every run
+		if k.Status == "known" && k.Property == d.id && !knownHit[k.What] {
+			knownHit[k.What] = true
+			fmt.Printf("KNOWN-FINDING: property=%s %s\n", d.id, k.What)
+		}
+	}
 	var shards []*shardRun
 	// regression cases first (bypassing rapid)
 	regress, _ := filepath.Glob(filepath.Join(verifDir, "regress", d.id, "*.json"))
@@ -573,7 +585,6 @@ func (d *driver) run(replay string) int {
 
 	// confirm / shrink failures
 	var violations []violation
-	knownHit := map[string]bool{}
 	inconclusive := 0
 	byClause := map[string]bool{}
 	for _, f := range fails {
@@ -586,6 +597,11 @@ func (d *driver) run(replay string) int {
 		}
 		byClause[key] = true
 		if f.Outcome.Undecided != "" {
+			uo := f.Outcome
+			uo.Clause = "undecided"
+			if matchKnown(known, d.id, &uo) != nil {
+				continue
+			}
 			undecided = append(undecided, fmt.Sprintf("%s: harness could not judge a case: %s\n  case: %s\n  %s", f.shard, f.Outcome.Undecided, tail(string(f.Case), 1500), strings.Join(f.Outcome.History, "\n  ")))
 			continue
 		}
